@@ -184,9 +184,6 @@ class Optic:
             cs = surface.geometry.cs
             new_geometry = StandardGeometry(cs, radius=value, conic=0)
             surface.geometry = new_geometry
-        elif np.isinf(value) and type(surface.geometry) is StandardGeometry:
-            # a standard surface of infinite radius is a plane
-            surface.geometry = Plane(surface.geometry.cs)
         else:
             surface.geometry.radius = value
 
